@@ -120,6 +120,17 @@ func runC18(t *Toks) string {
 		return gotResponse(c, 3*time.Second)
 	}
 	okBefore := bystander(9001)
+	// a conforming client may do unusual but legal things before the offender shows up, such as
+	// asking for StartTLS inside its TLS session: nothing a conforming client does may open the
+	// door for the next one
+	if c, err := tls.DialWithDialer(&net.Dialer{Timeout: 3 * time.Second}, "tcp", wp.addr, goodCli); err == nil {
+		if target == "server" {
+			wp.ask("script 9003 w", "script-ok", 2*time.Second)
+		}
+		_, _ = c.Write(encodeReq(&TReq{Kind: "ext", ID: 9003, Name: []byte("1.3.6.1.4.1.1466.20037")}).encode())
+		_ = gotResponse(c, 700*time.Millisecond)
+		c.Close()
+	}
 	// the offending connection
 	answered := false
 	const id = 7001
